@@ -264,6 +264,10 @@ class EquationParser(object):
         :return: None
         """
         for var, eqn in self.Endogenous:
+            if var in self.InitialConditions:
+                # A variable with an initial condition is not interchangeable with its alias target at k=0
+                # (the initial condition wins there), so it cannot be substituted away.
+                continue
             rhs = self.CleanupRightHandSide(eqn)
             if rhs in self.AllEquations:
                 # We have a case where VAR1 = VAR2.  Replace occurrences of VAR1 by VAR2 in all equations.
